@@ -98,9 +98,11 @@ def conversation(sx, typ, fsci, fwi, tx_size, clens, rlens, wtx, budget, kinds, 
     outcome = []
     failed = False
     retry = tag._dep.n_retry_nak
+    reached = True
     for i in range(napdu):
         seen_before = len(card.script_seen)
         used_before = faults.used
+        blocks_before = len(card.blocks_seen)
         try:
             got = tag.transceive(cmds[i])
         except nfc.tag.tt4.Type4TagCommandError as e:
@@ -124,12 +126,18 @@ def conversation(sx, typ, fsci, fwi, tx_size, clens, rlens, wtx, budget, kinds, 
                 break
             # the application carries on with the next APDU after the error
             failed = True
+            # did any frame of the failed exchange reach the card?  If not,
+            # card and reader still agree on the block number
+            reached = len(card.blocks_seen) > blocks_before
+            if not reached:
+                sx.reach("failed_exchange_never_reached_the_card")
             if n == 0:
                 # keep the applet's script aligned with the APDU index
                 card.script_seen.append(None)
             continue
         n = len(card.script_seen) - seen_before
-        after = ":after-failed-exchange" if failed else ""
+        after = (":after-failed-exchange" if reached else
+                 ":after-failed-exchange-that-never-reached-the-card") if failed else ""
         if failed:
             sx.reach("apdu_after_failed_exchange")
         sx.check(n == 1, "apdu-executed-%s-times:apdu%d%s" % ("no" if n == 0 else "several", i, after))
@@ -226,7 +234,7 @@ def partitions(tier):
 
 
 MUST_REACH = ["apdu_completed", "completed_despite_faults", "tag_command_error",
-              "command_chained", "response_chained", "wtx", "apdu_after_failed_exchange", "wtx_during_response_chaining", "wtx_repeated", "ats_layout_varied"]
+              "command_chained", "response_chained", "wtx", "apdu_after_failed_exchange", "failed_exchange_never_reached_the_card", "wtx_during_response_chaining", "wtx_repeated", "ats_layout_varied"]
 BOUNDS = {"quick": "<=2 faults per conversation out of {command lost, response lost, response garbled} at each of the first 24 blocks; FSCI 0/2/3; command/response lengths around multiples of FSC-3 (chaining both ways, three blocks each way at FWI 11); 1-3 consecutive APDUs; 1..9 consecutive S(WTX) (more than the retry budget), S(WTX) inside a chained response; FWI 4, 7, 10, 11 and 14 (retry budgets 5, 3, 1, 0); ATS with every subset of TA(1)/TB(1)/TC(1) and a card that needs 60 % of its announced frame waiting time; Type 4A and 4B; APDU and response bytes symbolic.  Absorption is judged per block: no block hit more often than the budget",
           "thorough": "<=3 faults; FSCI 0/2/3/5/8"}
 OUTSIDE = ["CID/NAD", "extended length APDUs", "more than 24 blocks per conversation", "FSD below 256"]
